@@ -20,7 +20,7 @@ IDS = [0, 1, 1000, 65534, 65535, 65536, 2 ** 31 - 1, 2 ** 31, 2 ** 32 - 2]
 def run(ctx):
     import conc
     ctx.level = "proof"
-    proved = vlib.prove(ctx, ["Properties_C03.v"], facts=["cred", "base64"])
+    proved = vlib.prove(ctx, ["Properties_C03.v", "Properties_CredSource.v"], facts=["cred", "base64", "cfun", "credsrc"])   # CredSource: enc/dec_authenticate translated from the C text = the model (failure of auth_recv included)
     ctx.log("proofs:", "ok" if proved else "BROKEN: " + getattr(ctx, "broken_obligation", "?"))
     ctx.cov["rule"] = ("clients with (euid, egid) in {0,1,1000,65534,65535,65536,2^31-1,2^31,2^32-2}^2 (quick: a covering subset) "
                        "send well-formed ENC_REQs, ENC_REQs whose payload/realm/restriction fields are uid/gid-looking words, "
@@ -191,10 +191,12 @@ def run(ctx):
             r, st = rig.encode(cg.d.sock, uid=u, gid=g, data=b"identity lookup fails")
             ctx.count(("peercred-fault-enc", u, g))
             dist["peercred-fault"] = dist.get("peercred-fault", 0) + 1
-            if r is not None and r["error_num"] == 0:
+            # a reply that reports the failure but carries a credential all the same (round 8) is an issued credential too
+            if r is not None and (r["error_num"] == 0 or r.get("data")):
                 p = cg.o.parse(r["data"])
-                fails.append({"why": "SO_PEERCRED lookup failed for a client with euid=%d egid=%d, yet a credential was issued recording identity %s"
-                                     % (u, g, p and (p["msg"]["cred_uid"], p["msg"]["cred_gid"])), "kind": "peercred-fault"})
+                fails.append({"why": "SO_PEERCRED lookup failed for a client with euid=%d egid=%d, yet a credential was issued (reply error %d, %d "
+                                     "credential bytes) recording identity %s"
+                                     % (u, g, r["error_num"], len(r["data"]), p and (p["msg"]["cred_uid"], p["msg"]["cred_gid"])), "kind": "peercred-fault"})
         os.unlink(flag)
         goods = []
         for (au, ag) in ((77, ANY), (0, ANY), (ANY, 0), (0, 0)):      # incl. the identity a zeroed, never-filled lookup would yield
